@@ -107,6 +107,11 @@ def op_unpair(rng, **kw):
     return _base(rng, "unpair", **kw)
 
 
+def op_life(rng, seq=("start",), **kw):
+    """the application starts / stops / restarts the SAME driver object (real async_start / async_stop on its own loop)"""
+    return _base(rng, "life", seq=list(seq), **kw)
+
+
 def op_seq(rng, byte, **kw):
     return _base(rng, "seq", byte=byte, **kw)
 
@@ -217,6 +222,15 @@ def boundary_plans(rng) -> List[Dict[str, Any]]:
                                      op_m5_replay(rng, 0, **c0), op_m5_replay(rng, 1, **c0)]))
     P.append(new_plan(rng, [op_unpair(rng), op_m1(rng, **c0), op_m5_replay(rng, 0, **c0)], prepaired=True))
     P.append(new_plan(rng, [op_m1(rng, **c0), op_m3_honest(rng, "ok", **c0), op_unpair(rng), op_m5(rng, "sess", "valid", **c0)]))
+    # object lifecycle: the driver is started, stopped and started again — nothing of an exchange may be gained by it
+    P.append(new_plan(rng, [op_life(rng, ("start",))] + done() + [op_life(rng, ("start", "stop", "start")), op_m5_replay(rng, 0, **c0),
+                                                                   op_m3_replay(rng, 0, **c0), op_m5_replay(rng, 0, **c0)]))
+    P.append(new_plan(rng, [op_life(rng, ("start",)), op_m1(rng, **c0), op_m3_honest(rng, "ok", **c0), op_life(rng, ("stop", "start")),
+                            op_m5(rng, "sess", "valid", conn=1)]))
+    P.append(new_plan(rng, [op_life(rng, ("start",)), op_m1(rng, **c0), op_m3_deg(rng, 1, **c0), op_life(rng, ("stop", "start")),
+                            op_m5(rng, "s0", "valid", conn=1)]))
+    P.append(new_plan(rng, [op_life(rng, ("start", "stop", "start")), op_m5(rng, "s0", "valid", **c0), op_m1(rng, **c0),
+                            op_life(rng, ("stop", "start")), op_m5(rng, "s0", "valid", **c0)]))
     # dispatch edge cases
     P.append(new_plan(rng, [op_seq(rng, b, **c0) for b in (0, 2, 4, 6, 7, 255, None, "long")] +
                       [op_raw(rng, b"", **c0), op_raw(rng, b"\x06", **c0), op_raw(rng, b"\x06\x05\x01", **c0)]))
@@ -309,8 +323,10 @@ def random_plan(rng) -> Dict[str, Any]:
         elif r < 0.90 and n_m5:
             ops.append(op_m5_replay(rng, rng.randrange(n_m5)))
             n_m5 += 1
-        elif r < 0.95:
+        elif r < 0.93:
             ops.append(op_seq(rng, rng.choice([0, 2, 4, 6, 7, 9, 255, None, "long"])))
+        elif r < 0.95:
+            ops.append(op_life(rng, rng.choice([("start",), ("stop", "start"), ("start", "stop", "start")])))
         else:
             ops.append(op_raw(rng, _rb(rng, rng.choice([0, 1, 2, 3, 9, 40]))))
         if ops[-1]["op"] == "M3" and ops[-1]["mode"] in ("honest", "deg", "replay") and rng.random() < 0.2:
@@ -420,6 +436,12 @@ def run_plan(plan: Dict[str, Any], env=None) -> Dict[str, Any]:
                 r = sc.unpair()
                 kinds.append("unpair")
                 outs.append("unpaired" if not r["paired"] else "still-paired")
+                continue
+            if op["op"] == "life":
+                for k in op["seq"]:
+                    sc.lifecycle(k)
+                    kinds.append("lifecycle-" + k)
+                    outs.append("lifecycle")
                 continue
             if op["op"] == "M1":
                 items = [(pc.T_STATE, b"\x01"), (pc.T_METHOD, b"\x00")]
